@@ -173,29 +173,15 @@ Section Read.
     - exists mode_file_default, (Raw c). split; [apply InFile, Hc|reflexivity].
   Qed.
 
-  (* the env directory is exactly what write_to_env_dir leaves for d; reading it returns d *)
-  Theorem read_env_dir_exact d p s :
-    simple_dir s p -> delta_wf d -> delta_names_nonempty d -> files_ok spec_beh_order wtab d ->
-    delta_is_empty d = false ->
-    (forall q, is_prefix p q = true -> pget q s = env_dir_spec spec_beh_order wtab d p q) ->
-    read_from_env_dir rtab no_ext reads_process p s = (s, Ok d).
+  (* any listing with the same SET of files as the writer's reads back as the delta *)
+  Lemma parse_files_same_set d (L' : list (name * bytes)) :
+    delta_wf d -> delta_names_nonempty d -> NoDup (map fst (delta_files spec_beh_order wtab d)) ->
+    NoDup (map fst L') -> (forall f, In f (delta_files spec_beh_order wtab d) <-> In f L') ->
+    parse_files rtab no_ext L' delta_empty = d.
   Proof.
-    intros SD W NE FO Hne Spec.
-    destruct (written_dir_facts d p s FO Hne Spec) as (Hp & InFile & FileIn & Hall).
-    destruct FO as [ND VF].
-    rewrite (read_env_dir_files p s mode_dir_default SD Hp eq_refl Hall).
-    f_equal. f_equal.
-    set (L' := map (fun nm => (nm, content_bytes (content_at (p ++ [nm]) s))) (children p s)).
+    intros W NE ND NDL Same.
     assert (P : Permutation (delta_files spec_beh_order wtab d) L').
-    { apply NoDup_Permutation.
-      - eapply NoDup_map_inv. exact ND.
-      - eapply NoDup_map_inv with (f := fst). unfold L'. rewrite map_map. cbn [fst]. rewrite map_id. apply children_nodup.
-      - intros [nm c]. unfold L'. rewrite in_map_iff. split.
-        + intros Hin. exists nm. split.
-          * unfold content_at. rewrite (InFile nm c Hin). reflexivity.
-          * apply children_pget. rewrite (InFile nm c Hin). discriminate.
-        + intros (nm' & E & Hin). injection E as -> E. apply children_pget in Hin. destruct (FileIn nm Hin) as (c' & Hc').
-          unfold content_at in E. rewrite (InFile nm c' Hc') in E. cbn [content_bytes] in E. subst c'. exact Hc'. }
+    { apply NoDup_Permutation; [eapply NoDup_map_inv; exact ND|eapply NoDup_map_inv; exact NDL|exact Same]. }
     rewrite delta_files_triples in P.
     apply Permutation_sym, Permutation_map_inv in P as (T' & EL & PT).
     rewrite EL.
@@ -208,5 +194,76 @@ Section Read.
     - rewrite delta_files_triples, map_map in ND.
       apply (nodup_map_factor tkey (fun bk => snd bk ++ writer_suffix_of wtab (fst bk))).
       erewrite map_ext; [exact ND|]. intros [[b k] v]. reflexivity.
+  Qed.
+
+  (* the env directory is exactly what write_to_env_dir leaves for d; reading it returns d *)
+  Theorem read_env_dir_exact d p s :
+    simple_dir s p -> delta_wf d -> delta_names_nonempty d -> files_ok spec_beh_order wtab d ->
+    delta_is_empty d = false ->
+    (forall q, is_prefix p q = true -> pget q s = env_dir_spec spec_beh_order wtab d p q) ->
+    read_from_env_dir rtab no_ext reads_process p s = (s, Ok d).
+  Proof.
+    intros SD W NE FO Hne Spec.
+    destruct (written_dir_facts d p s FO Hne Spec) as (Hp & InFile & FileIn & Hall).
+    destruct FO as [ND VF].
+    rewrite (read_env_dir_files p s mode_dir_default SD Hp eq_refl Hall).
+    f_equal. f_equal.
+    apply (parse_files_same_set d _ W NE ND).
+    - rewrite map_map. cbn [fst]. rewrite map_id. apply children_nodup.
+    - intros [nm c]. rewrite in_map_iff. split.
+      + intros Hin. exists nm. split.
+        * unfold content_at. rewrite (InFile nm c Hin). reflexivity.
+        * apply children_pget. rewrite (InFile nm c Hin). discriminate.
+      + intros (nm' & E & Hin). injection E as -> E. apply children_pget in Hin. destruct (FileIn nm Hin) as (c' & Hc').
+        unfold content_at in E. rewrite (InFile nm c' Hc') in E. cbn [content_bytes] in E. subst c'. exact Hc'.
+  Qed.
+
+  (* a directory holding readable files AND sub-directories (env.launch with per-process
+     directories): with the per-process reader in place, sub-directories are skipped *)
+  Definition file_child (s : fs) (p : path) (nm : name) : bool :=
+    match pget (p ++ [nm]) s with Some (File _ _) => true | _ => false end.
+
+  Lemma read_env_dir_mixed p s m :
+    reads_process = true ->
+    simple_dir s p -> pget p s = Some (Dir m) -> has_r m = true ->
+    (forall nm, In nm (children p s) -> valid_name nm = true /\
+        ((exists fm c, pget (p ++ [nm]) s = Some (File fm c) /\ has_r fm = true) \/ (exists dm, pget (p ++ [nm]) s = Some (Dir dm)))) ->
+    read_from_env_dir rtab no_ext reads_process p s =
+    (s, Ok (parse_files rtab no_ext (map (fun nm => (nm, content_bytes (content_at (p ++ [nm]) s)))
+                                         (filter (file_child s p) (children p s))) delta_empty)).
+  Proof.
+    intros RP SD Hp Hr Hall. unfold read_from_env_dir. unfold bindM at 1. unfold readdir.
+    rewrite (resolve_simple s p true SD), Hp, Hr. cbn [snd].
+    assert (G : forall names (acc : M delta) d0, acc s = (s, Ok d0) ->
+      (forall nm, In nm names -> In nm (children p s)) ->
+      fold_left (fun (acc : M delta) (nm : name) =>
+                 d <- acc ;;
+                 skip <- (fun s => (s, Ok (reads_process && is_dir (p ++ [nm]) s))) ;;
+                 if skip : bool then ret d
+                 else
+                   mc <- read_file (p ++ [nm]) ;;
+                   let '(stem, ob) := entry_behaviour rtab no_ext nm in
+                   ret (match ob with Some b => dinsert b stem (content_bytes (snd mc)) d | None => d end))
+              names acc s =
+      (s, Ok (parse_files rtab no_ext (map (fun nm => (nm, content_bytes (content_at (p ++ [nm]) s))) (filter (file_child s p) names)) d0))).
+    { induction names as [|nm names IH]; intros acc d0 Hacc Hsub; cbn [fold_left filter]; [exact Hacc|].
+      destruct (Hall nm (Hsub nm (or_introl eq_refl))) as (Hv & [(fm & c & Hf & Hfr)|(dm & Hd)]).
+      - assert (FC : file_child s p nm = true) by (unfold file_child; rewrite Hf; reflexivity).
+        rewrite FC. cbn [map]. unfold parse_files. cbn [fold_left fst snd].
+        change (fold_left _ (map _ (filter (file_child s p) names)) ?x) with
+          (parse_files rtab no_ext (map (fun nm => (nm, content_bytes (content_at (p ++ [nm]) s))) (filter (file_child s p) names)) x).
+        apply IH; [|intros n Hn; apply Hsub; right; exact Hn].
+        assert (NL : not_link (pget (p ++ [nm]) s)) by (rewrite Hf; intros t; discriminate).
+        unfold bindM at 1. rewrite Hacc. unfold bindM at 1.
+        unfold is_dir. rewrite (stat_in_dir s p nm SD Hv NL), Hf. rewrite andb_false_r.
+        unfold bindM at 1. unfold read_file. rewrite (resolve_in_dir s p nm true SD Hv NL), Hf, Hfr.
+        unfold content_at. rewrite Hf. cbn [snd].
+        destruct (entry_behaviour rtab no_ext nm) as [stem ob]. reflexivity.
+      - assert (FC : file_child s p nm = false) by (unfold file_child; rewrite Hd; reflexivity).
+        rewrite FC. apply IH; [|intros n Hn; apply Hsub; right; exact Hn].
+        assert (NL : not_link (pget (p ++ [nm]) s)) by (rewrite Hd; intros t; discriminate).
+        unfold bindM at 1. rewrite Hacc. unfold bindM at 1.
+        unfold is_dir. rewrite (stat_in_dir s p nm SD Hv NL), Hd, RP. reflexivity. }
+    apply (G (children p s) (ret delta_empty) delta_empty); [reflexivity|auto].
   Qed.
 End Read.
